@@ -57,6 +57,42 @@ def _closed_slots(fn, obj_names):
     return out
 
 
+def _consumes_tee(fn):
+    return any(call_name(c) == "self.tee_stdout" for c in calls_in(fn))
+
+
+def _ending_chain(pl, root="CommandPipeline.end", limit=5):
+    """[end, helper, ...]: the methods through which end() reaches the statement that runs the last stage to its end
+    (a consumer of self.tee_stdout()).  Each step must be unambiguous, else the shape is unknown."""
+    cls = root.rsplit(".", 1)[0]
+    if not pl.has(root):
+        raise AnchorMissing(f"{PL}:{root}")
+
+    def reaches(q, depth, stack=()):
+        fn = pl.func(q)
+        if _consumes_tee(fn):
+            return True
+        if depth <= 0:
+            return False
+        return any(reaches(h, depth - 1, stack + (q,)) for h in helpers(fn) if h not in stack and h != q)
+
+    def helpers(fn):
+        out = []
+        for c in calls_in(fn):
+            nm = call_name(c) or ""
+            if nm.startswith("self.") and nm.count(".") == 1 and pl.has(f"{cls}.{nm[5:]}") and isinstance(pl.quals[f"{cls}.{nm[5:]}"], FuncTypes) and f"{cls}.{nm[5:]}" not in out:
+                out.append(f"{cls}.{nm[5:]}")
+        return out
+
+    chain = [root]
+    while not _consumes_tee(pl.func(chain[-1])):
+        nxt = [h for h in helpers(pl.func(chain[-1])) if h not in chain and reaches(h, limit - len(chain))]
+        if len(nxt) != 1 or len(chain) >= limit:
+            raise AnalysisError(f"{PL}:{root}: the step that runs the last stage to its end (a consumer of self.tee_stdout()) is not reached through one chain of helpers from {chain[-1]} (candidates {nxt})")
+        chain.append(nxt[0])
+    return chain
+
+
 def check(ctx):
     ctx.not_decided += [
         "actual numbers of fds / threads / children after a command (run-time state)",
@@ -217,15 +253,31 @@ def check(ctx):
     ctx.ob("R3", f"{PL}:CommandPipeline._close_prev_procs", "earlier stages release stdin, stdout, stderr and their pipe channels", {"stdin", "stdout", "stderr", "pipe_channels"} <= c, key="prev-procs-slots", detail=str(sorted(c)))
 
     # ------------------------------------------------------------------ R4
-    en = pl.func("CommandPipeline._end")
-    ecfg = CFG(en, catchall=("BaseException",))
-    clp = [n for n in ecfg.nodes if n.kind == "stmt" and any(call_name(c) == "self._close_proc" for c in calls_in(n.ast))]
-    ended = [n for n in ecfg.nodes if n.kind == "stmt" and isinstance(n.ast, ast.Assign) and unparse(n.ast.targets[0]) == "self.ended" and const_value(n.ast.value) is True]
-    for what, nodes in (("_close_proc()", clp), ("ended = True", ended)):
-        ok = bool(nodes)
-        if ok:
-            ok, path = ecfg.must_pass(ecfg.entry, lambda m_, nodes=nodes: m_ in nodes)
-        ctx.ob("R4", f"{PL}:CommandPipeline._end", f"every exit of _end (exceptions included) passes {what}", ok, key=f"_end|{what}", where=loc(en), path=ecfg.fmt_path(path) if not ok and path else None)
+    # the ending step is found by its role, not by its name: end() and the helpers through which end() reaches the
+    # statement that consumes self.tee_stdout() (today end -> _end).  One of them must be a function every exit of
+    # which (exceptions included) has closed the last stage and marked the pipeline ended - whatever that function is
+    # called, and whether the step was inlined into end() or split into several helpers.  The only way out that need
+    # not close is the one taken because the pipeline had already been ended when the function was entered.
+    end_chain = _ending_chain(pl)
+    EXPAND_SKIP = ("_return_terminal", "tee_stdout", "print_exception")
+    verdicts = {"_close_proc()": [], "ended = True": []}
+    for q_ in end_chain:
+        en = flat(ctx, pl.func(q_), depth=3, skip=EXPAND_SKIP)
+        ecfg = CFG(en, catchall=("BaseException",))
+        clp = [n for n in ecfg.nodes if n.kind == "stmt" and any(call_name(c) == "self._close_proc" for c in calls_in(n.ast))]
+        ended = [n for n in ecfg.nodes if n.kind == "stmt" and isinstance(n.ast, ast.Assign) and unparse(n.ast.targets[0]) == "self.ended" and const_value(n.ast.value) is True]
+        # `if self.ended: return` - the flag as found on entry (no store of the flag reaches the test)
+        after_store = set(ecfg.reach(ended)) if ended else set()
+        already = {n for n in ecfg.nodes if n.kind == "stmt" and isinstance(n.ast, ast.Return) and n.ast.value is None and n not in after_store and ("self.ended", True) in nfacts(ecfg, n)}
+        for what, nodes in (("_close_proc()", clp), ("ended = True", ended)):
+            ok, path = bool(nodes), None
+            if ok:
+                ok, path = ecfg.must_pass(ecfg.entry, lambda m_, nodes=nodes: m_ in nodes or m_ in already)
+            verdicts[what].append((ok, q_, en, ecfg.fmt_path(path) if not ok and path else None))
+    for what, vs in verdicts.items():
+        good = [v for v in vs if v[0]]
+        ok, q_, en, path = good[-1] if good else vs[-1]
+        ctx.ob("R4", f"{PL}:{q_}", f"every exit of the pipeline-ending step (exceptions included) passes {what}", ok, key=f"_end|{what}", where=loc(en), path=path)
     px = ctx.repo.module(PX)
     run = px.func("ProcProxyThread.run")
     rcfg = CFG(run)  # a worker thread cannot receive KeyboardInterrupt; SystemExit is handled explicitly
@@ -357,13 +409,6 @@ def check(ctx):
                 ctx.ob("R6", f"{m.rel}:{q}", "the terminal foreground group is changed only by give_terminal_to (paired with _return_terminal)", q.endswith("give_terminal_to") or q.endswith("_give_terminal_to"), key=f"{m.rel}:{q}|tcsetpgrp", where=loc(n))
     # pipelines: every end() returns the terminal
     endf = pl.func("CommandPipeline.end")
-    ecf = CFG(endf)
-    e1 = [n for n in ecf.nodes if n.kind == "stmt" and any(call_name(c) == "self._end" for c in calls_in(n.ast))]
-    e2 = [n for n in ecf.nodes if n.kind == "stmt" and any(call_name(c) == "self._return_terminal" for c in calls_in(n.ast))]
-    ok = bool(e1) and bool(e2)
-    if ok:
-        ok, _ = ecf.must_pass(e1, lambda m_: m_ in e2, exits=("exit",))
-    ctx.ob("R6", f"{PL}:CommandPipeline.end", "after a pipeline ended normally the controlling terminal is returned to the shell", ok, key="end|terminal")
     if n6 + 1 < 2:
         raise AnalysisError("R6 saw no process-wide state sites at all")
     # ... and so does every explicit raise on the way out of end(): helpers are expanded (depth 3) so
@@ -374,6 +419,15 @@ def check(ctx):
     fcf = CFG(flat_end)
     ctx.extra["end_expanded_helpers"] = sorted({h for _, h in flat_end._xv_expanded})
     rt = [n for n in fcf.nodes if n.kind == "stmt" and any(call_name(c) == "self._return_terminal" for c in calls_in(n.ast))]
+    # "ended normally": from the statement that runs the last stage to its end (the consumer of self.tee_stdout(), in
+    # whichever helper of end() it lives) every normal way out of end() passes the hand-back
+    e1 = [n for n in fcf.nodes if n.kind in ("stmt", "for") and not getattr(n.ast, "_xv_call_marker", False) and any(isinstance(c, ast.Call) and call_name(c) == "self.tee_stdout" for c in ast.walk(n.ast.iter if n.kind == "for" else n.ast))]
+    if not e1:
+        raise AnalysisError(f"{PL}:CommandPipeline.end: the consumer of self.tee_stdout() was not reached by helper expansion ({sorted({h for _, h in flat_end._xv_expanded})})")
+    ok = bool(rt)
+    if ok:
+        ok, _ = fcf.must_pass(e1, lambda m_: m_ in rt, exits=("exit",))
+    ctx.ob("R6", f"{PL}:CommandPipeline.end", "after a pipeline ended normally the controlling terminal is returned to the shell", ok, key="end|terminal")
     raises = [n for n in fcf.nodes if n.kind == "stmt" and isinstance(n.ast, ast.Raise)]
     if not any("_raise_subproc_error" in h for _, h in flat_end._xv_expanded):
         raise AnalysisError(f"{PL}:CommandPipeline.end: the raising step was not reached by helper expansion ({sorted({h for _, h in flat_end._xv_expanded})})")
